@@ -124,6 +124,23 @@ def make_inputs(ck, cases, cfg):
         alpha = [b for b in fmt if b] * 3 + list(b"ab =\n\n \t\"'#;{}[]\\") + [0, 128, 255]
         text = [rng.choice(alpha) for _ in range(k)]
         out.append((fmt, acc, text, "random"))
+    # concatenations of two or three generated documents of the same configuration: more elements behind
+    # sections (also nameless ones) than the skeleton bound of the export offers
+    groups = {}
+    for st in cases:
+        if st["exp"]["ret"] == "ok" and st["exp"]["tree"]:
+            groups.setdefault((json.dumps(st["arg"]["fmt"]), json.dumps(st["arg"]["acc"])), []).append(st)
+    keys = sorted(groups)
+    for _ in range(cfg.get("ncat", 300)):
+        lst = groups[rng.choice(keys)]
+        parts = [rng.choice(lst) for _ in range(rng.choice([2, 3]))]
+        filled = [st for st in lst if any(x["c"] for x in st["exp"]["tree"])]
+        if filled and rng.random() < 0.6:        # a section with content first, further elements behind it
+            parts[0] = rng.choice(filled)
+        text = []
+        for ptx in parts:
+            text += flat(ptx["arg"]["text"]) + [10]
+        out.append((flat(parts[0]["arg"]["fmt"]), flat(parts[0]["arg"]["acc"]), text, "concat"))
     # nesting bombs in every style (the recording run gets a moderate depth: every event carries its whole path)
     deep = 70000 if ck.tier == "thorough" else 3000
     for fmt, unit, closer, depth in (([0], list(b"a{"), [125], deep), (list(b"<x> = "), list(b"<a "), [62], deep),
@@ -139,6 +156,38 @@ def make_inputs(ck, cases, cfg):
         out.append(([0], [0], list(b"a = \"") + [120] * n, "longquote"))
         out.append(([0], [0], list(b"# ") + [120] * n, "longcomment"))
     return out
+
+
+LIMITS = [[0], list(b"ns"), list(b"E"), [], list(b"nsq"), list(b"x"), list(b"n?"), list(b"ENSW-"), list(b"1")]
+
+
+def front_steps(ck, cases, n):
+    """the FILE and folder front ends: valid and failing format / name-limit descriptions, failing files,
+    always with runs on non-empty targets (judged by the monitor: unchanged target, nothing left behind)"""
+    rng = ck.rng
+    ok = [st for st in cases if st["exp"]["ret"] == "ok" and st["exp"]["tree"]]
+    pre = [st for st in ok if flat(st["arg"]["fmt"]) == [0]]
+    behs = []
+    for k in range(n):
+        st = rng.choice(ok)
+        fmt = st["arg"]["fmt"] if rng.random() < 0.7 else c09.runs_of(rng.choice(FORMATS))
+        lim = LIMITS[k % len(LIMITS)]
+        arg = {"fmt": fmt, "acc": c09.runs_of(lim), "text": st["arg"]["text"], "pre": 1 + k % 3}
+        behs.append([{"a": "nodeparse", "arg": arg, "origin": "front"}])
+    bad = [list(b"}"), list(b"a = \"x"), list(b"a {"), list(b"b{c{"), [0, 61], list(b"=\n}")]
+    for k in range(n):
+        files = [flat(rng.choice(pre)["arg"]["text"]) for _ in range(rng.choice([1, 2, 3]))]
+        if k % 2 == 0:
+            files.insert(rng.randrange(len(files) + 1), rng.choice(bad))
+        arg = {"n": len(files)}
+        for i, t in enumerate(files):
+            arg["t%d" % i] = c09.runs_of(t)
+        arg["text"] = c09.runs_of(files[0])
+        arg["fmt"] = [[0, 1]]
+        if rng.random() < 0.2:
+            arg["refuse"] = rng.randrange(0, 5)
+        behs.append([{"a": "folder", "arg": arg, "origin": "front"}])
+    return behs
 
 
 def to_steps(ck, inputs):
@@ -183,7 +232,7 @@ def run_and_validate(ck, exe, behs, tag):
                 faults.append((b, i, st, r))
                 break
             events.append({"a": st["a"], "arg": {"b": b, "i": i}, "obs": r["obs"], "_b": b, "_i": i, "_dbg": r.get("dbg")})
-    keys = ("ret", "ev", "fbefore", "ftree", "reads", "len", "net", "netclear", "links")
+    keys = ("ret", "ev", "fbefore", "ftree", "reads", "len", "net", "netclear", "links", "fds")
     slim = [{"a": e["a"], "arg": e["arg"], "obs": {k: v for k, v in e["obs"].items() if k in keys}} for e in events]
     vlib.log("trace validation of %d runs ..." % len(slim))
     ok, matched, res = vlib.validate_trace("Trace_ParseMon", slim, cfg="Trace_ParseMon.cfg", tag=tag, xss="1g", timeout=900)
@@ -279,7 +328,7 @@ def run(tier):
     inputs = make_inputs(ck, cases, cfg) + [(flat(st["arg"]["fmt"]), flat(st["arg"]["acc"]), flat(st["arg"]["text"]), "names")
                                             for st in ncases]
     cases = cases + ncases
-    behs = to_steps(ck, inputs)
+    behs = to_steps(ck, inputs) + front_steps(ck, cases, 60 if tier == "quick" else 600)
 
     # 2b. every byte string over a hostile alphabet as option data (Gen_ConfScan): these runs join the
     #     monitored ones; what the scanner model (Tier 2) predicts for them is compared for the record only
